@@ -3,7 +3,7 @@ CONSTANTS
   Senders = {"s1", "s2"}
   Handlers = {"h1", "h2"}
   MaxSend = 1
-  MaxRetx = 1
+  MaxRetx = 0
   Cap = 1
   Lifecycle = "separate"
   SecondCheck = TRUE
